@@ -3,6 +3,7 @@ import MosnVerif.Model.Flow
 import MosnVerif.Model.HpackInt
 import MosnVerif.Model.H2Frame
 import MosnVerif.Model.HpackTable
+import MosnVerif.Model.H2Seq
 /-! `mosnmodel` side of C18 (core Lean only): evaluates the models on each case line and the executable property
 predicates on the implementation's output. -/
 namespace MosnVerif.Drive.C18
@@ -449,6 +450,94 @@ def hdrCase (items : String) (impl : List String) : String :=
   | _, _ => "E E bad-hdr"
 end hpack
 
+
+/-! ### frame sequences -/
+section frames
+open MosnVerif.Model.H2Seq MosnVerif.Model.H2Frame MosnVerif.Model.HpackTable
+
+def orDash (s : String) : String := if s.isEmpty then "-" else s
+
+def prioTok : Option Priority → String
+  | none => "-"
+  | some p => s!"{p.streamDep}.{if p.exclusive then "1" else "0"}.{p.weight}"
+
+def frameTok : Frame → String
+  | .data sid fl len d => s!"D:{sid}:{fl}:{len}:{hex d}"
+  | .headers sid fl prio fields => s!"H:{sid}:{fl}:{prioTok prio}:{fieldsTok fields}"
+  | .settings fl ss => s!"S:{fl}:{orDash (joinWith ";" (ss.map (fun x => s!"{x.1}={x.2}")))}"
+  | .windowUpdate sid inc => s!"W:{sid}:{inc}"
+  | .ping fl d => s!"P:{fl}:{hex d}"
+  | .rst sid code => s!"R:{sid}:{code}"
+  | .goAway last code dbg => s!"G:{last}:{code}:{hex dbg}"
+  | .priority sid p => s!"Y:{sid}:{prioTok (some p)}"
+  | .unknown t fl sid pl => s!"U:{t}:{fl}:{sid}:{hex pl}"
+
+def errTok : RErr → String
+  | .conn c => s!"E:conn:{c}"
+  | .stream sid c => s!"E:stream:{sid}:{c}"
+  | .tooLarge => "E:toolarge"
+  | .other => "E:other"
+
+def seqTok (r : List Frame × End) : String :=
+  let toks := r.1.map frameTok ++ (match r.2 with
+    | .clean => []
+    | .short => ["E:short"]
+    | .failed e => [errTok e])
+  orDash (joinWith "," toks)
+
+/-- what a frame specification of the case must read back as (writer `dir`: x2m = reference framer, m2x = MFramer) -/
+def expectOfSpec (dir : String) (spec : String) : Option (List String) :=
+  match spec.splitOn ":" with
+  | ["D", sid, es, pad, dh] =>
+    match unhex dh with
+    | none => none
+    | some d =>
+      let esv := if es == "1" then 1 else 0
+      if dir == "x2m" then
+        match pad.toNat? with
+        | some k => some [s!"D:{sid}:{esv + 8}:{d.length + 1 + k}:{dh}"]
+        | none => some [s!"D:{sid}:{esv}:{d.length}:{dh}"]
+      else
+        -- MFramer.writeData: 16384-byte fragments, END_STREAM on the last; a nil slice is one empty frame
+        if d.isEmpty then some [s!"D:{sid}:{esv}:0:-"] else
+        let n := (d.length + 16383) / 16384
+        some ((List.range n).map (fun k =>
+          let chunk := (d.drop (16384 * k)).take 16384
+          s!"D:{sid}:{if k + 1 == n then esv else 0}:{chunk.length}:{hex chunk}"))
+  | "H" :: sid :: es :: pad :: prio :: nf :: rest =>
+    let fieldsS := joinWith ":" rest
+    let emptyFirst := nf.endsWith "e"
+    let nfrag := ((if emptyFirst then (nf.dropEnd 1).toString else nf).toNat?).getD 1
+    let single := !emptyFirst && nfrag ≤ 1
+    let padded : Bool := match pad.toNat? with | some k => decide (k > 0) | none => false
+    let fl := (if es == "1" then 1 else 0) + (if single then 4 else 0) + (if padded then 8 else 0) + (if prio != "-" then 32 else 0)
+    some [s!"H:{sid}:{fl}:{prio}:{orDash fieldsS}"]
+  | ["S", ack, ss] => some [s!"S:{ack}:{orDash ss}"]
+  | ["P", ack, d] => some [s!"P:{ack}:{d}"]
+  | "W" :: _ => some [spec]
+  | "R" :: _ => some [spec]
+  | "G" :: _ => some [spec]
+  | "Y" :: _ => some [spec]
+  | "U" :: _ => some [spec]
+  | _ => none
+
+def framesCase (dir mal specs : String) (impl : List String) : String :=
+  match impl with
+  | [wireHex, m, s, x] =>
+    match unhex wireHex with
+    | none => "E E bad-wire"
+    | some wire =>
+      let model := seqTok (readAll (wire.length + 1) RSt.initial wire [])
+      let mm := (m.drop 2).toString
+      let same := s == "s=" ++ mm && x == "x=" ++ mm
+      let expected := if mal != "-" then true else
+        match (specs.splitOn ",").mapM (expectOfSpec dir) with
+        | some l => joinWith "," l.flatten == mm
+        | none => false
+      verdict (m == "m=" ++ model) (same && expected) (if model.length > 200 then (model.take 200).toString else model)
+  | _ => "E E bad-frames-output"
+end frames
+
 def run (caseToks impl : List String) : String :=
   match caseToks with
   | ["flowops", hc, ops] => flowops hc ops impl
@@ -460,6 +549,7 @@ def run (caseToks impl : List String) : String :=
   | ["str", h] => strCase h impl
   | ["strdec", m, h] => strDec m h impl
   | ["hdr", _, items] => hdrCase items impl
+  | ["frames", dir, mal, _, specs] => framesCase dir mal specs impl
   | _ => "E E unknown-kind"
 
 end MosnVerif.Drive.C18
